@@ -312,6 +312,12 @@ def _part_fn(a, v):
         def f(i, md):
             return 'all'
         return f
+    if kind == 'none_first':
+        first = ids[0] if ids else None
+
+        def f(i, md):
+            return None if str(i) == first else 'rest'
+        return f
     if kind == 'grp':
         def f(i, md):
             return md['grp'] if (md is not None and md.get('grp') is not None) else 'nogrp'
@@ -455,15 +461,32 @@ def _prepare(t, a, v, out):
         return lambda: t.subsample(a['n'], axis=axis, by_id=a['by_id'], with_replacement=a['with_replacement'],
                                    seed=a.get('seed', 7))
     if op == 'collapse':
+        if a['f'] == 'one_to_many':
+            def f(i, md):
+                tax = md['taxonomy']
+                for k in range(len(tax)):
+                    yield (list(tax[:k + 1]), tax[k])
+            return lambda: t.collapse(f, norm=False, one_to_many=True, one_to_many_mode=a.get('mode', 'add'),
+                                      axis=axis)
         f = _part_fn(a, v)
-        return lambda: t.collapse(f, norm=a['norm'], axis=axis)
+        kw = {}
+        if a.get('collapse_f') == 'first':
+            def collapse_first(tab, ax):
+                return np.asarray([vals[0] for vals in tab.iter_data(axis=ax)], dtype=float)
+            kw['collapse_f'] = collapse_first
+        if 'include_md' in a:
+            kw['include_collapsed_metadata'] = a['include_md']
+        return lambda: t.collapse(f, norm=a['norm'], axis=axis, min_group_size=a.get('min_group_size', 1), **kw)
     if op == 'partition':
         f = _part_fn(a, v)
-        return lambda: t.partition(f, axis=axis)
+        return lambda: t.partition(f, axis=axis, remove_empty=a.get('remove_empty', False),
+                                   ignore_none=a.get('ignore_none', False))
     if op == 'merge':
         o, oc = companion(v, a['other'])
         out.others, out.other_contents = [o], [oc]
         return lambda: t.merge(o, sample=a['sample'], observation=a['observation'])
+    if op == 'concat' and a['other'] == 'nothing':
+        return lambda: t.concat([], axis=axis)
     if op == 'concat':
         o, oc = companion(v, a['other'], axis)
         out.others, out.other_contents = [o], [oc]
@@ -517,6 +540,8 @@ def alphabet(v, level='full'):
                     for inplace in (True, False):
                         add({'op': 'filter', 'axis': axis, 'sel': sel, 'form': form, 'invert': invert, 'inplace': inplace})
         add({'op': 'filter', 'axis': axis, 'sel': [], 'form': 'pred_value', 'invert': False, 'inplace': True})
+        if not full and k:
+            add({'op': 'filter', 'axis': axis, 'sel': [], 'form': 'list', 'invert': False, 'inplace': True})
         if full:
             add({'op': 'filter', 'axis': axis, 'sel': [], 'form': 'pred_value', 'invert': True, 'inplace': False})
             add({'op': 'filter', 'axis': axis, 'sel': list(range(k)), 'form': 'array', 'invert': False, 'inplace': True})
@@ -529,6 +554,8 @@ def alphabet(v, level='full'):
         if k:
             for perm in (('rev', 'rot', 'id') if full else ('rev',)):
                 add({'op': 'sort_order', 'axis': axis, 'perm': perm})
+            if full:
+                add({'op': 'sort_order', 'axis': axis, 'perm': [k - 1]})       # a sub-selection: only the last ID
         # update_ids
         if k:
             kinds = ['long', 'short', 'extra_keys', 'partial', 'partial_short'] if full else ['long', 'partial_short']
@@ -537,6 +564,8 @@ def alphabet(v, level='full'):
             for kind in kinds:
                 for inplace in ((True, False) if (full or kind == 'long') else (True,)):
                     add({'op': 'update_ids', 'axis': axis, 'kind': kind, 'inplace': inplace})
+            if not full and k >= 2:
+                add({'op': 'update_ids', 'axis': axis, 'kind': 'dup', 'inplace': False})     # must be rejected
         # metadata
         for kind in (('all', 'one', 'unknown') if full else ('one',)):
             add({'op': 'add_metadata', 'axis': axis, 'kind': kind})
@@ -552,10 +581,15 @@ def alphabet(v, level='full'):
                         add({'op': 'norm', 'axis': axis, 'inplace': inplace})
             for inplace in ((True, False) if full else (False,)):
                 add({'op': 'rankdata', 'axis': axis, 'inplace': inplace})
+            if full:
+                add({'op': 'rankdata', 'axis': axis, 'inplace': True, 'method': 'min'})
+                add({'op': 'rankdata', 'axis': axis, 'inplace': False, 'method': 'dense'})
         # subsample
         if k and m and n:
             for nn in ((1, 2) if full else (1,)):
                 add({'op': 'subsample', 'axis': axis, 'n': nn, 'by_id': True, 'with_replacement': False})
+                if full and nn == 1 and counts_like(v):
+                    add({'op': 'subsample', 'axis': axis, 'n': 10 ** 6, 'by_id': False, 'with_replacement': False})
                 if counts_like(v):
                     add({'op': 'subsample', 'axis': axis, 'n': nn, 'by_id': False, 'with_replacement': False})
                     if full and np.all(v.A.sum(axis=0) > 0) and np.all(v.A.sum(axis=1) > 0):
@@ -566,6 +600,17 @@ def alphabet(v, level='full'):
             for f in (fs if full else fs[:1] + fs[2:]):
                 for nrm in ((True, False) if full else (False,)):
                     add({'op': 'collapse', 'axis': axis, 'f': f, 'norm': nrm})
+            if full:
+                add({'op': 'collapse', 'axis': axis, 'f': 'parity', 'norm': False, 'min_group_size': 2})
+                add({'op': 'collapse', 'axis': axis, 'f': 'parity', 'norm': False, 'include_md': False})
+                add({'op': 'collapse', 'axis': axis, 'f': 'parity', 'norm': True, 'collapse_f': 'first'})
+                add({'op': 'partition', 'axis': axis, 'f': 'parity', 'pick': 0, 'remove_empty': True})
+                add({'op': 'partition', 'axis': axis, 'f': 'none_first', 'pick': 0, 'ignore_none': True})
+                add({'op': 'partition', 'axis': axis, 'f': 'none_first', 'pick': 0, 'ignore_none': False})
+                mdv = v.md(axis)
+                if mdv and all(isinstance(d.get('taxonomy'), list) for d in mdv):
+                    for mode in ('add', 'divide'):
+                        add({'op': 'collapse', 'axis': axis, 'f': 'one_to_many', 'norm': False, 'mode': mode})
             for f in ((fs + ['dict']) if full else ['parity']):
                 for pick in ((0, 1) if full else (1,)):
                     add({'op': 'partition', 'axis': axis, 'f': f, 'pick': pick})
@@ -573,6 +618,9 @@ def alphabet(v, level='full'):
         if m and n and max(m, n) <= GROW_LIMIT and fin:
             for other in (('same_inv', 'extra_inv') if full else ('extra_inv',)):
                 add({'op': 'concat', 'axis': axis, 'other': other})
+            if full:
+                add({'op': 'concat', 'axis': axis, 'other': 'same_inv', 'as_list': False})
+                add({'op': 'concat', 'axis': axis, 'other': 'nothing'})
     for axis in ('sample', 'observation', 'whole'):
         for inplace in (True, False):
             if full or (axis == 'whole') or inplace:
